@@ -405,6 +405,26 @@ impl ReceiveStream {
                 ref mut missing_data,
                 ..
             } => {
+                // The peer sent this data before it processed the STOP_SENDING frame, so it
+                // counts against the connection flow control limit on its side. Account for
+                // it here as well, and hand the credits back right away, since the data is
+                // discarded instead of being consumed by the application.
+                //= https://www.rfc-editor.org/rfc/rfc9000#section-4.5
+                //# The receiver MUST use the final size of the stream to
+                //# account for all bytes sent on the stream in its connection level flow
+                //# controller.
+                let data_end = frame
+                    .offset
+                    .checked_add_usize(frame.data.len())
+                    .ok_or_else(|| {
+                        transport::Error::FLOW_CONTROL_ERROR
+                            .with_reason("data size overflow")
+                            .with_frame_type(frame.tag().into())
+                    })?;
+                self.flow_controller
+                    .acquire_window_up_to(data_end, frame.tag().into())?;
+                self.flow_controller.release_outstanding_window();
+
                 if missing_data.on_data(frame).is_ready() {
                     self.stop_sending_sync.stop_sync();
                     self.final_state_observed = true;
@@ -766,6 +786,12 @@ impl ReceiveStream {
                 }
                 // If we've already buffered everything, transition to the final state
                 ReceiveStreamState::Receiving if self.receive_buffer.is_writing_complete() => {
+                    // The application will never read the buffered data: drop it and hand
+                    // its connection flow control credits back, so that the other streams
+                    // of the connection are not starved of them.
+                    self.receive_buffer.reset();
+                    self.flow_controller.release_outstanding_window();
+
                     self.state = ReceiveStreamState::DataRead;
                     self.final_state_observed = true;
                     response.status = ops::Status::Finished;
@@ -794,6 +820,12 @@ impl ReceiveStream {
             // We clear the receive buffer, to free up any buffer
             // space which had been allocated but not used
             self.receive_buffer.reset();
+
+            // The discarded data will never be consumed by the application. Stop advertising
+            // stream credits and hand the connection credits held by the stream back, so
+            // that the other streams of the connection are not starved of them.
+            self.flow_controller.stop_sync();
+            self.flow_controller.release_outstanding_window();
 
             // Mark the stream as reset. Note that the request doesn't have a flush so there's
             // currently no way to wait for the reset to be acknowledged.
